@@ -827,7 +827,7 @@ pub fn workload(ctx: &mut Ctx) {
     let k = match ctx.tier {
         Tier::Thorough => 48,
         Tier::Quick => 16,
-        Tier::Lite => 3,
+        Tier::Lite | Tier::Miri => 3,
     };
     // Limb: every shift 0..=129 and specials
     for s in (0u64..=129).chain([1 << 31, u32::MAX as u64]) {
